@@ -362,7 +362,7 @@ package tags
 //@ at call InnerString #1: e = result1
 //@ ensures bound: e == nil ==> result == nil && has(ctx.Bindings(), varname) && ctx.Bindings()[varname] == box(s, string)
 //@ ensures error: e != nil ==> result == e
-//@ ensures notOutput: wtotal(wsink(w)) == old(wtotal(wsink(w))) && sameold("F$render.trimWriter$buf") && sameold("F$render.trimWriter$trim")
+//@ ensures notOutput: wtotal(wsink(w)) == old(wtotal(wsink(w)))
 
 // ---- include (C14) ---------------------------------------------------------------------
 
